@@ -13,6 +13,7 @@ import itertools
 from lib import core, gen
 
 LEVEL = 'proof'
+BBH_FEATURES = ['tree']      # harness command families this check needs (fallback build, lib/core.py build_bbh)
 ASSUMPTIONS = [
     'theorems are about comp_prog values with strictly increasing keys (cp_wf, the BTreeMap invariant; '
     'C14_from_str_wf: the parser only builds such maps) and about inputs with every state below `states`; '
